@@ -16,9 +16,9 @@ from symex.poly import pall_in, pand, pconcat, pcontains, peq, pimplies, plen, p
 
 PROPERTY = "C03"
 BOUNDS = {
-    "quick": {"path": "'/' + <= 5 solver characters (printable ASCII without % ? #)", "maps": "12 rule maps x 3 insertion orders x strict/merge slashes on/off (4 settings)",
+    "quick": {"path": "'/' + <= 5 solver characters (printable ASCII without % ? #)", "maps": "14 rule maps x 3 insertion orders x strict/merge slashes on/off (4 settings)",
               "methods": "GET + one more"},
-    "thorough": {"path": "<= 7 characters", "maps": "12 maps x 6 orders x 4 slash settings"},
+    "thorough": {"path": "<= 7 characters", "maps": "14 maps x 6 orders x 4 slash settings"},
 }
 STUBS = ["urllib.parse.quote: per-byte model (safe set -> itself, else %XX), differentially tested at start-up"]
 ASSUMPTIONS = ["rule maps, insertion orders and slash settings are enumerated, not solver-quantified", "paths are printable ASCII"]
@@ -55,6 +55,11 @@ EXTRA_MAPS = [
 MORE_MAPS = [
     ["/<string:a>/x", "/<int:b>/x", "/<float:f>/x"],
     ["/v<string:a>/i/", "/v<int:b>/i/", "/<x>/<int:n>", "/<int:n>/<x>"],
+    # rules that share a leading variable segment: the weights behind it decide
+    ["/<a>/<b>", "/<a>/<int:n>", "/<a>/<float:f>"],
+    # branch rules per method next to a leaf for another method (strict_slashes off: the
+    # slash-less form must still respect the method sets)
+    ["/a/|GET", "/a/|POST", "/<x>|PUT", "/<int:n>/|DELETE"],
 ]
 
 
@@ -305,11 +310,19 @@ def body_match(I, X, mi=0, order=0, strict=True, merge=True, n=3, method="GET", 
         fm = [(r, h, g) for r, h, g in adm405 if r["methods"] is None or method in r["methods"]]
         ok = len(adm405) >= 1 and len([1 for r, h, g in fm if h == "exact"]) == 0
         if ok:
-            want = set()
+            # Allow lists the methods of the rules that admit the path in their own form; whether
+            # rules that admit it only through the trailing-slash redirect / leniency are listed
+            # too is left open
+            want_max, want_min = set(), set()
+            mp405 = norm if adm else merged(norm)
             for r, h, g in adm405:
                 if r["methods"]:
-                    want |= r["methods"]
-            ok = set(outcome[1]) == want
+                    want_max |= r["methods"]
+                    if admits(r, mp405, X, True)[0] == "exact":
+                        want_min |= r["methods"]
+            if not want_min:
+                want_min = want_max
+            ok = want_min <= set(outcome[1]) <= want_max
     else:
         url = outcome[1]
         # C12: stays on the bound scheme/host/script root and keeps the query string
